@@ -82,3 +82,67 @@ class ParseInlineFragment(Contract):
 
 CONTRACTS = [ParseInlineFragment()]
 LEMMAS = []
+
+
+# ---- _parse_field: the sub-selection of a field is parsed (and validated) against the field's own named type; the parent type is restored
+FieldTypeName = z3.Function('SchemaFieldTypeName', V, V, V, V)      # get_schema_field_type_name(parent type name, field name, schema)
+NameOfAst = z3.Function('ParsedName', V, V)                         # _parse_name(json): a NameNode
+
+
+def _name(en, st, a, kw):
+    j = en.read(a[0], st)
+    t = NameOfAst(j)
+    return [(st.assume(exact(t, 'NameNode'), V.oref(t) >= 0, V.is_Str(attr0(t, 'value'))), t)]
+
+
+class ParseField(Contract):
+    """_parse_field: while the field's arguments, directives and sub-selection are parsed the context's parent type is the field's own (unwrapped)
+    type name, looked up from the parent type AT ENTRY and the field name; afterwards the parent type at entry is back"""
+    key = TRF + '_parse_field'
+    property_ids = ('C07',)
+    params = ['field_ast', 'validators', 'path']
+    modifies_fields = ('ctx',)
+
+    def args(self, en, names):
+        self.A = super().args(en, names)
+        return self.A
+
+    @property
+    def callee_models(self):
+        def nested(en, st, a, kw):
+            vs = en.read(a[1], st)
+            st = st.put_ghost('nested_parent', lookup(V.ditems(fld(st, 'ctx', vs)), S('parent_type_name')))
+            return _selection_set(en, st, a, kw)
+        return {TRF + '_parse_name': _name, TRF + '_parse_arguments': _opaque('_parse_arguments'), TRF + '_parse_directives': _opaque('_parse_directives'),
+                TRF + '_parse_selection_set': nested, TRF + '_parse_location': _opaque('_parse_location'),
+                'tartiflette/language/validators/query/utils.py::get_schema_field_type_name':
+                    lambda en, st, a, kw: [(st, FieldTypeName(en.read(a[0], st), en.read(a[1], st), en.read(a[2], st)))]}
+
+    def pre(self, A, st):
+        vs, j = A['validators'], A['field_ast']
+        c = fld(st, 'ctx', vs)
+        p0 = lookup(V.ditems(c), S('parent_type_name'))
+        return [('validators', z3.And(exact(vs, 'Validators'), V.oref(vs) >= 0, V.is_Dict(c), AllStrKeyed(V.ditems(c)), p0 != V.Missing, z3.Or(p0 == V.None_, V.is_Str(p0)))),
+                ('json', z3.And(V.is_Dict(j), *[lookup(V.ditems(j), S(k)) != V.Missing for k in ('name', 'alias', 'arguments', 'directives', 'selectionSet', 'loc')])),
+                ('path', z3.Or(A['path'] == V.None_, inst(A['path'], 'Path')))]
+
+    def ghost0(self, A):
+        return {'nested_parent': V.Missing}
+
+    def getattr_hook(self, en, st, v, attr):
+        if attr == 'validate' and z3.eq(v, self.A['validators']):
+            return [(st, PyFunc('validators.validate', lambda en, s, a, kw: [(s, V.None_)]))]
+        return None
+
+    def post(self, A, st0, out):
+        if out.kind == 'raise':
+            return never_raises(out)
+        vs, j, r, st = A['validators'], A['field_ast'], out.value, out.st
+        p0 = lookup(V.ditems(fld(st0, 'ctx', vs)), S('parent_type_name'))
+        nm = NameOfAst(lookup(V.ditems(j), S('name')))
+        return [('a_field_node_with_its_name', z3.And(exact(r, 'FieldNode'), fld(st, 'name', r) == nm)),
+                ('sub_selection_parsed_under_the_field_type', out.st.ghost['nested_parent'] == FieldTypeName(p0, attr0(nm, 'value'), fld(st0, 'schema', vs))),
+                ('parent_type_restored', lookup(V.ditems(fld(st, 'ctx', vs)), S('parent_type_name')) == p0)]
+
+
+CONTRACTS.append(ParseField())
